@@ -220,7 +220,8 @@ func (p *prestate) imageFor(c cacheCfg) (*image, error) {
 //	otherwise             the node starts on a copy of a database that already holds the genesis block (NewBlockChain loads it,
 //	                      SetupGenesisBlock's "no genesis document given" path), then receives the parent blocks
 //	cold restart          the node starts on a copy of the database of a node with the same configuration that executed the
-//	                      parent blocks and was stopped (BlockChain.Stop); it is given the genesis document like a real restart
+//	                      parent blocks and was stopped (BlockChain.Stop); with own_genesis it is also handed the genesis
+//	                      document (SetupGenesisBlock re-executes it to compare hashes), otherwise it keeps the stored configuration
 type variant struct {
 	Cfg     cacheCfg `json:"cache_config"`
 	Rep     int      `json:"repetition"`
@@ -251,7 +252,7 @@ func variantsFor(p *prestate, seqLen int) []variant {
 	var vs []variant
 	cold := func(b int) {
 		if len(p.blocks) > 0 {
-			vs = append(vs, variant{Cfg: cfgFromBits(b), Cold: true})
+			vs = append(vs, variant{Cfg: cfgFromBits(b), Cold: true, Scratch: b == 0 || b == 0b0110})
 		}
 	}
 	all := make([]int, 16)
@@ -301,7 +302,12 @@ func nodeFor(p *prestate, v variant) (*node, error) {
 		for _, kv := range im.kv {
 			db.Put(kv[0], kv[1])
 		}
-		n, err := bootOn(db, v.Cfg, p.Kind)
+		var n *node
+		if v.Scratch {
+			n, err = bootOn(db, v.Cfg, p.Kind) // a restart that is given the genesis document (backend.go does)
+		} else {
+			n, err = bootOnExisting(db, v.Cfg, p.Kind)
+		}
 		if err != nil {
 			return nil, err
 		}
@@ -481,7 +487,7 @@ func localise(p *prestate, w *wireBlock, ref *obs, v variant, o *obs) (axis, fie
 		}
 	}
 	if v.Cold {
-		oc := execute(p, variant{Cfg: refVariant.Cfg, Cold: true}, w)
+		oc := execute(p, variant{Cfg: refVariant.Cfg, Cold: true, Scratch: v.Scratch}, w)
 		if f, _, _ := diff(ref, oc); f != "" {
 			return "cold-restart", field, a, b
 		}
@@ -1075,7 +1081,7 @@ func replay() {
 			vs = append(vs, variant{Cfg: cfgFromBits(b), Rep: k})
 		}
 		if len(p.blocks) > 0 {
-			vs = append(vs, variant{Cfg: cfgFromBits(b), Cold: true})
+			vs = append(vs, variant{Cfg: cfgFromBits(b), Cold: true, Scratch: b == 0 || b == 0b0110})
 		}
 	}
 	vs[0].Scratch = true
